@@ -39,7 +39,7 @@ class Watch(object):
         self.holding = threading.Event()        # a sender thread is held right after a watched DELETE
         self.release = threading.Event()        # ... until this is set (or the time is up)
         self.holds_left = 0
-        self.hold_seconds = 2.0
+        self.hold_seconds = 5.0
         self.p_stmt = 0.3
         self.violations = []
         self.main = threading.main_thread()
@@ -262,7 +262,7 @@ def stack_threads_case(acc, seed, tag):
                 before = entered["during_hold"]
 
                 def deliver(W_, X=X):
-                    if watch.holding.wait(3.0):
+                    if watch.holding.wait(8.0):
                         acc.count("threads_confirmations_released_into_hold")
                     else:
                         acc.count("threads_sender_never_reached_delete")
